@@ -196,7 +196,7 @@ def decisions(case: dict, real: list[str], aux: dict) -> list[str] | None:
 
 def model_input(case: dict, real: list[str]):
     aux = _aux.get(core.case_digest(case))
-    if aux is None or case["path"] == "srvclient":
+    if aux is None or case["path"] in ("srvclient", "sockadapter"):
         return None
     p = case.get("params") or {}
 
@@ -261,6 +261,9 @@ def configurations(tier: str) -> list[tuple[str, dict]]:
         cfgs.append(("srvclient", {"inner": a, "busy": True}))
         cfgs.append(("srvclient", {"inner": a, "via": "scope"}))
         cfgs.append(("srvclient", {"inner": a, "busy": True, "via": "scope"}))
+    for peer in ("open", "closed", "data"):
+        for wrap in ("none", "endpoint"):
+            cfgs.append(("sockadapter", {"peer": peer, "wrap": wrap}))
     for a in iv:
         for peer in ("reply", "silent", "first", "drop"):
             cfgs.append(("tls", {"sc": True, "peer": peer, "inner": a, "shutdown_timeout": 5}))
